@@ -492,6 +492,23 @@ m('statistics-copy-without-latch', ['C19'], ST, """	// cs can be updated by stat
 m('cross-side-non-equality-conditions-dropped', ['C11'], SO, """			if samehada_util.IsColumnName(here.Left) && samehada_util.IsColumnName(here.Right) {
 				isEqual := here.ComparisonOperationType == expression.Equal""", """			if here.ComparisonOperationType == expression.Equal && samehada_util.IsColumnName(here.Left) && samehada_util.IsColumnName(here.Right) {
 				isEqual := here.ComparisonOperationType == expression.Equal""", ['C11-R7 [findBestJoinInner:non-equality-cross-conditions-are-collected]'])
+CMP = 'lib/execution/expression/comparison.go'
+BOV = 'lib/parser/binary_op_visitor.go'
+m('comparison-ge-evaluated-as-gt', ['C06', 'C11'], CMP, """	case GreaterThanOrEqual:
+		return lhs.CompareGreaterThanOrEqual(rhs)""", """	case GreaterThanOrEqual:
+		return lhs.CompareGreaterThan(rhs)""", ['C06-R4 [performComparison:GreaterThanOrEqual]'])
+m('comparison-operands-swapped', ['C06'], CMP, """	case LessThan:
+		return lhs.CompareLessThan(rhs)""", """	case LessThan:
+		return rhs.CompareLessThan(lhs)""", ['C06-R4 [performComparison:LessThan]'])
+m('front-end-le-parsed-as-lt', ['C06'], BOV, """	case opcode.LE:
+		return -1, expression.LessThanOrEqual""", """	case opcode.LE:
+		return -1, expression.LessThan""", ['C06-R4 [front-end:LE->LessThanOrEqual]'])
+m('range-lt-treated-inclusive', ['C06'], SO, """				r.Max = rhs.GetDeepCopy()
+				r.MaxInclusive = false""", """				r.Max = rhs.GetDeepCopy()
+				r.MaxInclusive = true""", ['C06-R4 [Range.Update:LessThan:DirRight]', 'C06-R4 [Range.Update:GreaterThan:DirLeft]'])
+m('range-direction-confused', ['C06'], SO, """		if (dir == DirRight && op == expression.LessThanOrEqual) ||
+			(dir == DirLeft && op == expression.GreaterThanOrEqual) {""", """		if (dir == DirRight && op == expression.LessThanOrEqual) ||
+			(dir == DirRight && op == expression.GreaterThanOrEqual) {""", ['C06-R4 [Range.Update:GreaterThanOrEqual:DirRight]', 'C06-R4 [Range.Update:GreaterThanOrEqual:DirLeft]'])
 # drop the one that needs a helper that does not exist
 M = [x for x in M if x['id'] != 'insert-executor-unlocks-early']
 os.chdir(os.path.dirname(os.path.abspath(__file__)) + '/..')
